@@ -264,11 +264,14 @@ pub fn eval_proof<'a>(rep: &mut Report, w: &World, p: &PProof, label: impl Into<
         }
         all_true = false;
         // an entry that repeats the position of an earlier entry is a root cause of its own
-        let shadowed = p.inner_leaves[..j].iter().any(|(q, _)| q == pos);
+        // … but only when the earlier entry carries a DIFFERENT leaf: then one of the two is left
+        // unverified. An identical repetition leaves nothing unverified; such an entry is judged by
+        // whatever else is false about it.
+        let shadowed = p.inner_leaves[..j].iter().any(|(q, it)| q == pos && it != item);
         let (key, what) = if shadowed {
             (
                 "C09/mkproof:entry-repeating-a-position-is-not-verified".to_string(),
-                format!("item {} is stated at position {pos}, a position another entry of the proof already uses", hex::encode(&item.hash)),
+                format!("item {} is stated at position {pos}, a position at which an earlier entry of the proof states a different leaf", hex::encode(&item.hash)),
             )
         } else {
             match idx {
